@@ -133,8 +133,12 @@ IeeeLit == {Bin(c, Bin("/", FL(n1), FL(n2)), Bin("/", FL(n3), FL(n4))) : c \in C
            \cup {Bin(c, Bin("/", FL(n1), Pre("-", FL(n2))), FL(0)) : c \in CmpOps, n1 \in {0, 1}, n2 \in {0, 1}}
            \cup {Bin(c, Bin("/", FL(1), Bin("-", FL(n1), FL(n2))), FL(0)) : c \in CmpOps, n1 \in {0, 1}, n2 \in {0, 1}}
 
+\* @dump of every kind of value, alone, nested and empty
+RawDump == {"@dump(" \o KName(i) \o ")" : i \in KI} \cup {"@dump([" \o KName(i) \o ", " \o KName(j) \o "])" : i \in KI, j \in {13, 15}}
+           \cup {"@dump({a: " \o KName(i) \o "})" : i \in KI} \cup {"@dump([])", "@dump({})", "@dump([[]])", "@dump([[], {}])", "@dump({a: [], b: {}})", "@dump(\"\")",
+                  "@dump([1, 2].slice(2))", "@dump(\"\".split(\",\"))", "@dump(nil)", "@dump(1.5, true, nil)"}
 Cases ==
-  CASE Family = "raw09" -> {[kind |-> "raw", src |-> r, b |-> 0, lay |-> "sp"] : r \in RawAny}
+  CASE Family = "raw09" -> {[kind |-> "raw", src |-> r, b |-> 0, lay |-> "sp"] : r \in RawAny \cup RawDump}
     [] Family = "pairs"   -> {[kind |-> "tree", e |-> e, b |-> b, lay |-> l] : e \in Pairs, b \in {1, 2, 3, 4, 5}, l \in {"sp", "tight"}}
     [] Family = "pairsall" -> {[kind |-> "tree", e |-> e, b |-> b, lay |-> l] : e \in Pairs, b \in 1..7, l \in Layouts}
     [] Family = "triples" -> {[kind |-> "tree", e |-> e, b |-> b, lay |-> l] : e \in Triples, b \in {1, 2, 3, 5}, l \in {"sp", "full"}}
